@@ -338,6 +338,9 @@ def cases(tier, what="forward"):
         dimsets = [None] + lattice.dims(r) + lattice.signed_dim_tuples(r)
         if tier == "quick" and r >= 4:
             dimsets = [None] + lattice.dims(r) + [t for t in lattice.signed_dim_tuples(r) if len(t) <= 2]
+        if not wide:
+            # the empty dim tuple: NumPy reduces nothing, torch everything - whichever the forward does, backward differentiates THAT
+            dimsets = dimsets + [()]
         for d in dimsets:
             for kd in (False, True):
                 add("sum", [s], {"dim": d, "keepdims": kd}); add("mean", [s], {"dim": d, "keepdims": kd})
